@@ -743,11 +743,39 @@ class Interp:
                 raise NotEncodable("isinstance")
             if inspect.isbuiltin(o) and getattr(o, "__self__", None).__class__ is re.Pattern:
                 return self.regex_call(o.__self__, o.__name__, args, a)
+            if inspect.isbuiltin(o) and isinstance(getattr(o, "__self__", None), dict) and o.__name__ == "get" and len(args) in (1, 2):
+                return self.dict_lookup(o.__self__, args[0], args[1] if len(args) == 2 else None, a, strict=False)
             if inspect.isfunction(o):
                 return self.call(o, args, a)
             if inspect.ismethod(o):
                 return self.call(o.__func__, [PyRef(o.__self__)] + args, a)
         raise NotEncodable("call of %s (line %d)" % (ast.unparse(f), e.lineno))
+
+    def dict_lookup(self, d, key, default, a, strict):
+        """Look-up of a symbolic string in a *concrete* dict {str: int} read from the live object (a table built at
+        import time): a chain of if-then-else over the table's keys.  strict: a missing key raises KeyError."""
+        if not isinstance(key, (SStr, str)) or not all(isinstance(k, str) and isinstance(v, int) and not isinstance(v, bool) for k, v in d.items()):
+            raise NotEncodable("dict look-up other than {str: int}[str]")
+        if default is None and not strict:
+            raise NotEncodable("dict.get() returning None")
+        if isinstance(key, str):
+            if key in d:
+                return d[key]
+            if strict:
+                self.exc = Or(self.exc, a)
+                return 0
+            return default
+        res = default if not strict else 0
+        hit = False
+        for k, v in d.items():
+            if len(k) > key.n:
+                continue
+            c = str_eq(key, k)
+            res = ite(c, v, res)
+            hit = Or(hit, c)
+        if strict:
+            self.exc = Or(self.exc, And(a, Not(hit)))
+        return res
 
     def to_int(self, s, a):
         if isinstance(s, int) or (is_sym(s) and z3.is_int(s)):
